@@ -5,6 +5,9 @@ import (
 	"fmt"
 	gobig "math/big"
 	mrand "math/rand"
+	"reflect"
+	"sort"
+	"strings"
 
 	"verifharness/hx"
 
@@ -28,6 +31,11 @@ type kscen struct {
 	Wrap    bool  `json:"wrap"`    // roots of s + j*M (M the group order) for bases that are no squares, genuine modulus
 	Trap    bool  `json:"trap"`    // a group prime for which log_g h is known (for the generators 0x41424344^.., 0x494A4B4C^.. of old)
 	Accept  bool  `json:"accept"`
+	// a record of KeyProofView.tla instead of a scenario: the buckets floor(x / 2^(l2+eps)) of the range-proof results of the
+	// 'bit = 1' branch of an exponentiation step, as the specification has them for a step whose exponent bit is Bit
+	View    bool  `json:"view"`
+	Bit     int   `json:"bit"`
+	Buckets []int `json:"buckets"`
 }
 
 // a safe prime of 843 bits dividing 0x41424344^30 - 0x494A4B4C^31: for generators that are these fixed integers (to fixed powers)
@@ -37,10 +45,19 @@ const trapdoorPrime = "328321074956992517182497691105732761775300153086742291080
 func zeroforge(a *hx.Args, res *hx.Result) {
 	rng := hx.Rng(a.Seed, "kp-zeroforge")
 	var scen []kscen
+	specView := map[int]string{}
 	for _, l := range hx.ReadNDJSON(a.In) {
 		var s kscen
 		if err := json.Unmarshal(l, &s); err != nil {
 			hx.Fatal("bad scenario: %v", err)
+		}
+		if s.View {
+			var bs []string
+			for _, b := range s.Buckets {
+				bs = append(bs, fmt.Sprint(b))
+			}
+			specView[s.Bit] = strings.Join(bs, ",")
+			continue
 		}
 		scen = append(scen, s)
 	}
@@ -150,38 +167,116 @@ func zeroforge(a *hx.Args, res *hx.Result) {
 		n := new(gobig.Int).Mul(P, Q)
 		res.Eval("exponent-bit-leak")
 		var leaked []string
+		var viewLeaks []string
+		buckets := map[int]map[int64]bool{0: {}, 1: {}}
 		panicked, msg := hx.Try(func() {
-			st := keyproof.NewValidKeyProofStructure(G(n), []*big.Int{big.NewInt(36), big.NewInt(49)})
-			built := st.BuildProof(G(ga), G(gb))
-			bts, err := json.Marshal(built)
-			if err != nil {
-				hx.Fatal("marshal: %v", err)
+			build := func() keyproof.ValidKeyProof {
+				st := keyproof.NewValidKeyProofStructure(G(n), []*big.Int{big.NewInt(36), big.NewInt(49)})
+				built := st.BuildProof(G(ga), G(gb))
+				bts, err := json.Marshal(built)
+				if err != nil {
+					hx.Fatal("marshal: %v", err)
+				}
+				var proof keyproof.ValidKeyProof
+				if err := json.Unmarshal(bts, &proof); err != nil {
+					hx.Fatal("unmarshal: %v", err)
+				}
+				return proof
 			}
-			var proof keyproof.ValidKeyProof
-			if err := json.Unmarshal(bts, &proof); err != nil {
-				hx.Fatal("unmarshal: %v", err)
-			}
-			for name, pp := range map[string]keyproof.PrimeProof{"pprime": proof.PprimeIsPrimeProof, "qprime": proof.QprimeIsPrimeProof} {
-				for ename, exp := range map[string]keyproof.ExpProof{"a": pp.AExpProof, "aneg": pp.AnegExpProof} {
-					// the distinguisher: is the multiplier of step i sent as a copy of the base power commitment?
+			proof, proof2 := build(), build()
+			// W = 2^(l2+eps) of the range proofs inside the multiplication proofs (KeyProofView.tla)
+			wbits := uint((n.BitLen()+1)/2) + 256
+			for _, name := range []string{"pprime", "qprime"} {
+				pp, pp2, secretPrime := proof.PprimeIsPrimeProof, proof2.PprimeIsPrimeProof, ga
+				if name == "qprime" {
+					pp, pp2, secretPrime = proof.QprimeIsPrimeProof, proof2.QprimeIsPrimeProof, gb
+				}
+				trueExp := new(gobig.Int).Rsh(secretPrime, 1) // (p'-1)/2
+				for _, ename := range []string{"a", "aneg"} {
+					exp, exp2 := pp.AExpProof, pp2.AExpProof
+					if ename == "aneg" {
+						exp, exp2 = pp.AnegExpProof, pp2.AnegExpProof
+					}
+					// the distinguisher of D53: is the multiplier of step i sent as a copy of the base power commitment?
 					h := new(gobig.Int)
 					for i := range exp.InterStepsProofs {
 						if exp.InterStepsProofs[i].Bproof.Mul.Commit.Cmp(exp.BasePowProofs[i].Commit) == 0 {
 							h.SetBit(h, i, 1)
 						}
 					}
-					cand := new(gobig.Int).Add(new(gobig.Int).Lsh(h, 2), gobig.NewInt(3)) // p = 2(2h+1)+1
-					if cand.Cmp(b1) > 0 && cand.Cmp(n) < 0 && new(gobig.Int).Mod(n, cand).Sign() == 0 {
+					if isFactor(h, n) {
 						leaked = append(leaked, name+"/"+ename)
+					}
+					// the buckets of KeyProofView.tla: the branch 'bit = 1' of step i is real iff bit i of the exponent is 1
+					for i := range exp.InterStepsProofs {
+						bit := int(trueExp.Bit(i))
+						walkLeaves(reflect.ValueOf(exp.InterStepsProofs[i].Bproof.MultiplicationProof.RangeProof.Results), "", func(path string, x *gobig.Int) {
+							if !strings.Contains(path, "_hider") {
+								buckets[bit][new(gobig.Int).Rsh(x, wbits).Int64()] = true
+							}
+						})
+					}
+					// the generic distinguisher: every leaf of the step proofs, by path, with the smallest and the largest bit length
+					// per step. A feature whose values over the steps with bit 0 and over those with bit 1 of the FIRST proof do not
+					// overlap is a candidate; it counts if, applied to the SECOND proof with the threshold learnt from the first and
+					// without any secret, it yields a factor of n (D59: the range-proof results of the simulated branch)
+					f1 := stepFeatures(exp)
+					var keys []string
+					for k := range f1 {
+						keys = append(keys, k)
+					}
+					sort.Strings(keys)
+					for _, key := range keys {
+						lo, hi := [2]int{1 << 30, 1 << 30}, [2]int{-1, -1}
+						cnt := [2]int{}
+						for i, v := range f1[key] {
+							bit := int(trueExp.Bit(i))
+							cnt[bit]++
+							lo[bit], hi[bit] = min(lo[bit], v), max(hi[bit], v)
+						}
+						if cnt[0] < 4 || cnt[1] < 4 || !(hi[0] < lo[1] || hi[1] < lo[0]) {
+							continue
+						}
+						oneIsHigh := hi[0] < lo[1]
+						thr := lo[1]
+						if !oneIsHigh {
+							thr = lo[0]
+						}
+						h2 := new(gobig.Int)
+						for i, v := range stepFeatures(exp2)[key] {
+							if (v >= thr) == oneIsHigh {
+								h2.SetBit(h2, i, 1)
+							}
+						}
+						if isFactor(h2, n) {
+							viewLeaks = append(viewLeaks, fmt.Sprintf("%s/%s: %s (bit 0: %d..%d bits, bit 1: %d..%d bits)", name, ename, key, lo[0], hi[0], lo[1], hi[1]))
+						}
 					}
 				}
 			}
 		})
+		for bit := 0; bit <= 1; bit++ {
+			var bs []string
+			for b := int64(0); b < 8; b++ {
+				if buckets[bit][b] {
+					bs = append(bs, fmt.Sprint(b))
+				}
+			}
+			res.Count(fmt.Sprintf("view:bit=%d:buckets=%s", bit, strings.Join(bs, ",")))
+			if want, ok := specView[bit]; ok && !panicked && want != strings.Join(bs, ",") {
+				res.Violation("view-differs-from-specification", fmt.Sprintf("the range-proof results of the 'bit = 1' branch of the exponentiation steps whose exponent bit is %d fall into the buckets {%s} of width 2^(l2+eps); the specification (KeyProofView.tla) has {%s} for both bits", bit, strings.Join(bs, ","), want), hx.M{"n": n.String(), "bit": bit})
+			}
+		}
 		switch {
 		case panicked:
 			res.Violation("keyproof-panic", "building an honest key proof panicked: "+msg, hx.M{})
 		case len(leaked) > 0:
 			res.Violation("key-proof-reveals-factor", fmt.Sprintf("an honest ValidKeyProof (after JSON) reveals a factor of n: in the exponentiation proofs %v the real branch of every step is recognisable (Bproof.Mul.Commit equals BasePowProofs[i].Commit exactly for the 1 bits of the exponent (p'-1)/2)", leaked), hx.M{"n": n.String()})
+		case len(viewLeaks) > 0:
+			if len(viewLeaks) > 6 {
+				viewLeaks = viewLeaks[:6]
+			}
+			res.Violation("key-proof-reveals-factor", fmt.Sprintf("an honest ValidKeyProof (after JSON) reveals a factor of n: a published component of the exponentiation steps has a size that depends on whether its branch is real or simulated; the threshold learnt on one proof, applied to another proof of the key without any secret, gives the bits of (p'-1)/2 and so p: %v", viewLeaks), hx.M{"n": n.String()})
 		default:
 			res.Count("exponent-bit-leak:none")
 		}
@@ -318,4 +413,84 @@ func zeroforge(a *hx.Args, res *hx.Result) {
 			}
 		}
 	})
+}
+
+// isFactor reports whether 4h+3 (p = 2p'+1 with p' = 2h+1) is a proper factor of n
+func isFactor(h, n *gobig.Int) bool {
+	cand := new(gobig.Int).Add(new(gobig.Int).Lsh(h, 2), gobig.NewInt(3))
+	return cand.Cmp(b1) > 0 && cand.Cmp(n) < 0 && new(gobig.Int).Mod(n, cand).Sign() == 0
+}
+
+// stepFeatures: for every leaf path of the step proofs of an exponentiation proof, the smallest (#min) and the largest (#max)
+// bit length among the integers at that path, per step
+func stepFeatures(exp keyproof.ExpProof) map[string][]int {
+	out := map[string][]int{}
+	for i := range exp.InterStepsProofs {
+		lo, hi := map[string]int{}, map[string]int{}
+		walkLeaves(reflect.ValueOf(exp.InterStepsProofs[i]), "", func(path string, x *gobig.Int) {
+			l := x.BitLen()
+			if v, ok := lo[path]; !ok || l < v {
+				lo[path] = l
+			}
+			if v, ok := hi[path]; !ok || l > v {
+				hi[path] = l
+			}
+		})
+		for pth, v := range lo {
+			if out[pth+"#min"] == nil {
+				out[pth+"#min"] = make([]int, len(exp.InterStepsProofs))
+			}
+			out[pth+"#min"][i] = v
+			if out[pth+"#max"] == nil {
+				out[pth+"#max"] = make([]int, len(exp.InterStepsProofs))
+			}
+			out[pth+"#max"][i] = hi[pth]
+		}
+	}
+	return out
+}
+
+// walkLeaves calls f for every integer in v (a proof tree of structs, maps, slices and pointers), with the path of field names
+// and map keys leading to it (slice indices are left out, so that the elements of a list share a path)
+func walkLeaves(v reflect.Value, path string, f func(path string, x *gobig.Int)) {
+	switch v.Kind() {
+	case reflect.Ptr, reflect.Interface:
+		if v.IsNil() {
+			return
+		}
+		if b, ok := v.Interface().(*big.Int); ok {
+			f(path, b.Go())
+			return
+		}
+		if b, ok := v.Interface().(*gobig.Int); ok {
+			f(path, b)
+			return
+		}
+		walkLeaves(v.Elem(), path, f)
+	case reflect.Struct:
+		for i := 0; i < v.NumField(); i++ {
+			if !v.Type().Field(i).IsExported() {
+				continue
+			}
+			walkLeaves(v.Field(i), path+"."+v.Type().Field(i).Name, f)
+		}
+	case reflect.Slice, reflect.Array:
+		for i := 0; i < v.Len(); i++ {
+			walkLeaves(v.Index(i), path, f)
+		}
+	case reflect.Map:
+		keys := v.MapKeys()
+		sort.Slice(keys, func(i, j int) bool { return fmt.Sprint(keys[i]) < fmt.Sprint(keys[j]) })
+		for _, k := range keys {
+			name := fmt.Sprint(k)
+			// the names of secrets carry the index of the step: strip digits so that steps share paths
+			name = strings.Map(func(r rune) rune {
+				if r >= '0' && r <= '9' {
+					return -1
+				}
+				return r
+			}, name)
+			walkLeaves(v.MapIndex(k), path+"["+name+"]", f)
+		}
+	}
 }
